@@ -413,20 +413,25 @@ type field struct {
 	kind string
 }
 
-func fieldsOf(kdf string) []field {
-	f := []field{
-		{nil, "id", "id"}, {nil, "version", "version"}, {nil, "crypto", "object"}, {nil, "address", "other"},
-		{[]string{"crypto"}, "cipher", "cipher"}, {[]string{"crypto"}, "ciphertext", "ciphertext"},
-		{[]string{"crypto"}, "cipherparams", "object"}, {[]string{"crypto", "cipherparams"}, "iv", "iv"},
-		{[]string{"crypto"}, "kdf", "kdf"}, {[]string{"crypto"}, "kdfparams", "object"}, {[]string{"crypto"}, "mac", "mac"},
-		{[]string{"crypto", "kdfparams"}, "dklen", "dklen"}, {[]string{"crypto", "kdfparams"}, "salt", "salt"},
+// fieldsOf lists the members in two groups: those the property is about (parameters that
+// feed slice arithmetic, cipher constructors and the KDF) and the structural rest.
+func fieldsOf(kdf string) (core, rest []field) {
+	kp := []string{"crypto", "kdfparams"}
+	core = []field{
+		{[]string{"crypto", "cipherparams"}, "iv", "iv"}, {kp, "dklen", "dklen"},
 	}
 	if kdf == v3ref.KDFScrypt {
-		f = append(f, field{[]string{"crypto", "kdfparams"}, "n", "n"}, field{[]string{"crypto", "kdfparams"}, "r", "rp"}, field{[]string{"crypto", "kdfparams"}, "p", "rp"})
+		core = append(core, field{kp, "r", "rp"}, field{kp, "p", "rp"}, field{kp, "n", "n"})
 	} else {
-		f = append(f, field{[]string{"crypto", "kdfparams"}, "c", "c"}, field{[]string{"crypto", "kdfparams"}, "prf", "prf"})
+		core = append(core, field{kp, "c", "c"}, field{kp, "prf", "prf"})
 	}
-	return f
+	core = append(core, field{[]string{"crypto"}, "cipher", "cipher"}, field{[]string{"crypto"}, "kdf", "kdf"},
+		field{kp, "salt", "salt"}, field{[]string{"crypto"}, "ciphertext", "ciphertext"}, field{[]string{"crypto"}, "mac", "mac"})
+	rest = []field{
+		{[]string{"crypto"}, "cipherparams", "object"}, {[]string{"crypto"}, "kdfparams", "object"}, {nil, "crypto", "object"},
+		{nil, "version", "version"}, {nil, "id", "id"}, {nil, "address", "other"},
+	}
+	return core, rest
 }
 
 func container(doc tree, path []string) tree {
@@ -631,13 +636,18 @@ type mutant struct {
 
 func genMutant(rt *rapid.T, rec *evid.Recorder, allowRisky bool) mutant {
 	b := genBase(rt)
-	fields := fieldsOf(b.kdf)
+	core, rest := fieldsOf(b.kdf)
 	n := rapid.SampledFrom([]int{1, 1, 1, 2, 2, 3}).Draw(rt, "mut.count")
 	var labels []string
 	risky := false
 	for i := 0; i < n; i++ {
 		l := fmt.Sprintf("mut.%d", i)
-		f := rapid.SampledFrom(fields).Draw(rt, l+".field")
+		var f field
+		if rapid.IntRange(0, 3).Draw(rt, l+".group") < 3 {
+			f = core[rapid.IntRange(0, len(core)-1).Draw(rt, l+".core")]
+		} else {
+			f = rest[rapid.IntRange(0, len(rest)-1).Draw(rt, l+".rest")]
+		}
 		if f.kind == "cipher" && cipherFindingOpen {
 			// open known finding: the region is excluded by construction
 			rec.Excluded(cipherKey)
@@ -649,7 +659,7 @@ func genMutant(rt *rapid.T, rec *evid.Recorder, allowRisky bool) mutant {
 		labels = append(labels, "mutant:"+lab)
 	}
 	pw := b.pw
-	if rapid.IntRange(0, 9).Draw(rt, "mut.otherPw") == 0 {
+	if rapid.IntRange(0, 19).Draw(rt, "mut.otherPw") == 7 {
 		pw = append(append([]byte{}, pw...), 'x')
 		labels = append(labels, "mutant:other-password")
 	}
